@@ -197,11 +197,11 @@ type dslPrintIn struct {
 
 type dslPrintObs struct {
 	ID          string          `json:"id"`
-	Proto       printResult     `json:"proto"`     // TransformJSONProtoToDSL
-	ProtoSrc    printResult     `json:"proto_src"` // ... WithIncludeSourceInformation(true)
-	JSON        printResult     `json:"json"`      // TransformJSONStringToDSL
+	Proto       printResult     `json:"proto"`        // TransformJSONProtoToDSL
+	ProtoSrc    printResult     `json:"proto_src"`    // ... WithIncludeSourceInformation(true)
+	JSON        printResult     `json:"json"`         // TransformJSONStringToDSL
 	ProtoShared printResult     `json:"proto_shared"` // TransformJSONProtoToDSL on the same model with structurally equal rewrite subtrees shared (one message value)
-	Variants    []string        `json:"variants"`  // distinct plain outputs over key orders / type orders / repetitions
+	Variants    []string        `json:"variants"`     // distinct plain outputs over key orders / type orders / repetitions
 	VariantsSrc []string        `json:"variants_src"`
 	NVariants   int             `json:"nvariants"`
 	Reparse     *parseResult    `json:"reparse,omitempty"`     // parse of the plain output
